@@ -430,3 +430,33 @@ def vars_of(t, acc=None):
 
 def parse_expr(src):
     return ast.parse(str(src).strip(), mode='eval').body
+
+
+# ---------------------------------------------------------------------- shallow rendering (real numbers)
+
+SHALLOW_FN = {'sin': 'Real.sin', 'cos': 'Real.cos', 'tan': 'Real.tan', 'exp': 'Real.exp', 'log': 'Real.log',
+              'sqrt': 'Real.sqrt', 'abs': 'abs', 'arctan': 'Real.arctan'}
+
+
+def to_shallow(t, names):
+    """tree -> Lean term over ℝ with the model's symbols as bound variables (`names`: index -> identifier)"""
+    k = t[0]
+    if k == 'num':
+        q = t[1]
+        if q.denominator == 1:
+            return '(%d : ℝ)' % q.numerator
+        return '((%d : ℝ) / %d)' % (q.numerator, q.denominator)
+    if k == 'var':
+        return names[t[1]]
+    if k == 'pi':
+        return 'Real.pi'
+    if k in ('add', 'sub', 'mul', 'div'):
+        op = {'add': '+', 'sub': '-', 'mul': '*', 'div': '/'}[k]
+        return '(%s %s %s)' % (to_shallow(t[1], names), op, to_shallow(t[2], names))
+    if k == 'neg':
+        return '(-%s)' % to_shallow(t[1], names)
+    if k == 'pow':
+        return '(%s ^ %d)' % (to_shallow(t[1], names), t[2])
+    if k == 'un' and t[1] in SHALLOW_FN:
+        return '(%s %s)' % (SHALLOW_FN[t[1]], to_shallow(t[2], names))
+    raise Untranslatable('shallow rendering of ' + k)
